@@ -528,6 +528,24 @@ impl<T> Block for NoCopyFileSink<T>""")]),
 ALL_BUILT = ["C03", "C08", "C12", "C13", "C14", "C15", "C19", "C01", "C02", "C04", "C05", "C06", "C07", "C09", "C16", "C17", "C18"]
 
 NEUTRAL = [
+    dict(name="n-stp-shrink-after-loop", props=["C08", "C15", "C09"],
+         edits=[E("src/stream_to_pdu.rs", """        let n = input.len();
+        input.consume(n);""", """        if self.buf.capacity() > 4 * self.max_size.max(1) {
+            // housekeeping only: give memory back, contents untouched
+            self.buf.shrink_to(self.max_size);
+        }
+        let n = input.len();
+        input.consume(n);""")]),
+    dict(name="n-mtgraph-cputime-before-error-return", props=["C07", "C06"],
+         edits=[E("src/mtgraph.rs", """        if let Some(e) = first_err {
+            return Err(e);
+        }
+        self.spent_time = Some(st.elapsed());
+        self.spent_cpu_time = Some(get_cpu_time() - run_start_cpu);""", """        self.spent_time = Some(st.elapsed());
+        self.spent_cpu_time = Some(get_cpu_time() - run_start_cpu);
+        if let Some(e) = first_err {
+            return Err(e);
+        }""")]),
     dict(name="n-consume-compare-subtract-wrap", props=["C01", "C02", "C03"],
          edits=[E("src/circular_buffer.rs", "        let newpos = (s.rpos + n) % s.capacity();", """        let mut newpos = s.rpos + n;
         if newpos >= s.capacity() {
